@@ -5,7 +5,7 @@ from .. import core
 from ..engines import history as H
 
 PROP = "C15"
-SEQ_A = "SKEKTGKEYEKE"            # charged 12-mer with S/T/Y; phosphosites 1 and 5 set
+SEQ_A = "SKEKTGKEYEKE"            # charged 12-mer with S/T/Y; phosphosites set in the order 9, 1, 5
 SEQ_B = "GSGSTGNQAGYG"            # uncharged: kappa -1 path
 SEQ_C = "GSGSGSGSGSKKKGSGSGSEEEGSGS"  # 26-mer, 20 neutrals: the >=18-neutral delta-max regime
 UA = {a: ("K" if a in "KRH" else ("S" if a in "ST" else "A")) for a in "ACDEFGHIKLMNPQRSTVWY"}
@@ -31,7 +31,7 @@ def build(only=None):
             objs[n] = SP("KEKEGSTYKE")
     for n in ("A", "A2"):
         if n in objs:
-            objs[n].set_phosphosites([1, 5])
+            objs[n].set_phosphosites([9, 1, 5])
     if "P" in objs:
         objs["P"].set_HTMLColorResiduePalette(dict(PALETTE))
     return objs
